@@ -655,13 +655,23 @@ dis_interval<Number>::widening(const dis_interval<Number> &o,
     //   }
     // }
 
-    // keep all the intervals, normalize will do the rest
+    // Keep the interior intervals of the left argument only. If this
+    // is already an upper bound of the right argument then the
+    // interior is stable and we are done.
     res.insert(res.end(), m_list.begin() + 1, m_list.end() - 1);
-    res.insert(res.end(), o.m_list.begin() + 1, o.m_list.end() - 1);
-
     res.push_back(ub_widen);
+    dis_interval<Number> stable_interior(res);
+    if (stable_interior.is_top() || o <= stable_interior) {
+      return stable_interior;
+    }
 
-    return dis_interval<Number>(res);
+    // Otherwise, an interior interval of the right argument is still
+    // growing. Joining the interiors (as it was done before) is not
+    // an extrapolation: the ascending chain is only bounded by the
+    // distance between the extremes. We give up the disjunctions and
+    // widen the convex approximations.
+    return dis_interval<Number>(
+        widen_op.apply(approx(m_list), approx(o.m_list)));
   }
 }
 
